@@ -194,7 +194,7 @@ def _group(records):
     return chunks
 
 
-def replay(ctx_or_none, records, procs=NPROC):
+def replay_records(ctx_or_none, records, procs=NPROC):
     import multiprocessing as mp
     chunks = _group(records)
     chunks.sort(key=lambda g: -sum(len(r["acts"]) * sum(len(d["keys"]) for d in r["shape"]) for r in g))
@@ -246,7 +246,7 @@ def run(ctx):
             recs, r = _collect(ctx, "MC_SignerReplay", cfg, timeout=3000, **kw)
             if not recs:
                 raise MachineryError("no behaviour printed by %s" % cfg)
-            fails, tot = replay(ctx, recs)
+            fails, tot = replay_records(ctx, recs)
             ctx.log("replayed %d behaviours of %s: %d signing passes executed, %d steps judged, %d behaviours applied, %d disagreements" % (
                 len(recs), cfg, tot["passes"], tot["judged"], tot["applied"], len(fails)))
             if tot["applied"] < len(recs) // 3:
@@ -265,13 +265,13 @@ def run(ctx):
                          "sup": [1], "touch": [1], "allowed": [{"s": [[[1, 1]]], "v": [True]}]}],
                "outs": [{"signed": [[[1, 1]]], "valid": [True]}],
                "flags": ["P2SH", "STRICTENC", "DERSIG", "LOW_S", "NULLDUMMY", "CLEANSTACK", "WITNESS", "NULLFAIL"], "sigbyte": 1}
-        f0, _ = replay(None, [rec], procs=1)
+        f0, _ = replay_records(None, [rec], procs=1)
         bad = json.loads(json.dumps(rec))
         bad["acts"][0]["allowed"] = [{"s": [[[1, 3]]], "v": [True]}]
-        f1, _ = replay(None, [bad], procs=1)
+        f1, _ = replay_records(None, [bad], procs=1)
         bad2 = json.loads(json.dumps(rec))
         bad2["acts"][0]["allowed"] = [{"s": [[[1, 1]]], "v": [False]}]
-        f2, _ = replay(None, [bad2], procs=1)
+        f2, _ = replay_records(None, [bad2], procs=1)
         ctx.selftest("replay_rejects_corrupted_expectation", (not f0) and bool(f1) and bool(f2))
 
     # 3. code -> spec
@@ -519,3 +519,30 @@ def run_traces(ctx):
         b3["ev"][-1]["frame"] = "0" * 16
         r2 = validate_traces(ctx, [g, b1, b2, b3])
         ctx.selftest("trace_rejects_corrupted_field", r2 == [1, 2, 3])
+
+
+def replay(ctx, obj):
+    """./check C05 --replay FILE: re-run the recorded passes on a fresh transaction and print the projections"""
+    d = obj.get("detail") or {}
+    if "trace" in d:
+        coin, shape = d["trace"]["coin"], d["trace"]["shape"]
+        acts = d["trace"]["ev"][:d["event"] + 1]
+    else:
+        coin, shape, acts = d["coin"], d["shape"], d["acts"]
+    print("key:", obj["key"])
+    print("coin:", coin, "shape:", json.dumps(shape))
+    ses = drv.Session(coin, shape)
+    bits = drv.flag_bits(policy_names_for(coin))
+    for a in acts:
+        p = {k: a[k] for k in ("mech", "K", "I", "ht", "scr", "reg", "sec", "fresh")}
+        try:
+            ses.sign(p)
+            exc = None
+        except Exception as e:  # noqa
+            exc = repr(e)
+        pr = [drv.project_input(coin, ses.tx, i, pz, bits) for i, pz in enumerate(ses.puzzles)]
+        print("pass", json.dumps(p), "->", "exception " + exc if exc else "",
+              json.dumps([{k: x[k] for k in ("signed", "valid", "ok_api", "enc") if k in x} | ({"err": x["err"]} if "err" in x else {}) for x in pr]))
+    print("specification:", json.dumps(d.get("allowed_last") or d.get("spec")))
+    print("transaction:", ses.tx.as_hex())
+    ctx.violations[obj["key"]] = "(replayed)"
